@@ -327,6 +327,20 @@ class Unit:
                 self.items.append(item)
                 loop = None
                 sub = None
+            elif name == "expr":
+                # @expr <rel> "<fn path>" <selector> ; selectors: call=<method> arg=<k> | assign=<lhs text>
+                rel = arg.split()[0]
+                fnpath = re.findall(r'"([^"]*)"', arg)[0]
+                kv = dict(x.split("=", 1) for x in arg.split('"')[-1].split())
+                item = {"kind": "expr", "rel": rel, "name": fnpath, "sel": kv, "where": where, "clauses": [], "sigtext": None,
+                        "impl": kv.get("impl"), "proof": "", "safety": None, "external": False}
+                self.items.append(item)
+                loop = None
+                sub = None
+            elif name == "sigtext":
+                item["sigtext"] = full
+            elif name == "proof":
+                item["proof"] = full
             elif name == "closurefn":
                 # @closurefn <closure local name> captures <name: Type>, ...
                 m = re.match(r"^(\w+)\s+captures\s+(.*)$", full, re.S)
@@ -465,6 +479,50 @@ class Gen:
         self.emit("\n", ("glue",))
         self.functions.append((f"{it['kind']} {it['name']}", it["rel"], hashlib.sha256(src.bytes[node["s"]:node["e"]]).hexdigest(),
                                (src.line_of(node["s"]), src.line_of(node["e"]))))
+
+    # ---- a single expression of a function that is out of reach, wrapped as a function of its own -------
+    def emit_expr(self, it):
+        i0 = len(self.segs)
+        src = Src.get(it["rel"])
+        _, fn = find_fn(src, it["name"])
+        body = kid(fn, "body")
+        sel = it["sel"]
+        hits = []
+        for n in walk(body):
+            if "call" in sel and n["k"] == "MethodCall" and n["a"]["method"] == sel["call"]:
+                args = kids(n, "arg")
+                k = int(sel.get("arg", 0))
+                if k < len(args):
+                    hits.append(args[k])
+            if "assign" in sel and n["k"] == "Assign" and norm(src.text(kid(n, "left"))) == norm(sel["assign"]):
+                hits.append(kid(n, "right"))
+            if "let" in sel and n["k"] == "Local" and kid(n, "pat")["a"].get("ident") == sel["let"] and kid(n, "init") is not None:
+                hits.append(kid(n, "init"))
+        if len(hits) != 1:
+            raise Inconclusive(f"lost anchor: @expr {sel} in {it['name']} ({src.rel}): {len(hits)} candidates")
+        e = hits[0]
+        self.functions.append((f"expression {sel} of {it['name']}", it["rel"], hashlib.sha256(src.bytes[e["s"]:e["e"]]).hexdigest(),
+                               (src.line_of(e["s"]), src.line_of(e["e"]))))
+        self.dropped.append(f"@expr {it['name']} {sel}: everything of the enclosing function except this one expression")
+        if it["impl"]:
+            self.emit(f"impl {it['impl']} {{\n", ("glue",))
+        self.emit(f"// expression extracted from {src.rel}:{src.line_of(e['s'])} (enclosing fn {it['name']} is out of the verifier's reach)\n", ("glue",))
+        self.emit(it["sigtext"] + "\n", ("glue",))
+        for kind in ("requires", "ensures"):
+            cs = [c for c in it["clauses"] if c.kind == kind and c.active(self.prop)]
+            if cs:
+                self.emit(f"    {kind}\n", ("glue",))
+                for c in cs:
+                    self.reg(c)
+                    self.emit("        " + c.text + ",\n", ("clause", c.id))
+        self.emit("{\n    let __r = ", ("glue",))
+        ed = Edits(src, e["s"], e["e"])
+        for seg in ed.segments():
+            self.emit(*seg)
+        self.emit(";\n    " + it["proof"] + "\n    __r\n}\n", ("glue",))
+        if it["impl"]:
+            self.emit("}\n", ("glue",))
+        self.fn_segs.append((i0, len(self.segs), it))
 
     # ---- functions --------------------------------------------------------------------------
     def emit_fn(self, it):
@@ -1034,6 +1092,8 @@ class Gen:
                 self.emit(it["text"] + "\n", ("raw", it["tag"]))
             elif it["kind"] in ("struct", "enum", "const"):
                 self.emit_type(it)
+            elif it["kind"] == "expr":
+                self.emit_expr(it)
             elif it["kind"] == "fn":
                 self.emit_fn(it)
                 if self.vacuity and not it["external"]:
